@@ -5,16 +5,14 @@ The leaf kernels of the list denotation (FuraxProofs/Sem/ListSem.lean) commute w
 -/
 import FuraxProofs.Sem.ListSemLaws
 import FuraxProofs.Sem.ToeplitzLeaf
+import FuraxProofs.Sem.DenseLeaf
 namespace Furax
 namespace ListSem
 open Op
 
-/-- `f` commutes with multiplication by a scalar -/
-private def Hom (f : V → V) : Prop := ∀ (a : ℝ) (x : V), f (x.map fun v => a * v) = (f x).map fun v => a * v
 
 /-! ### plumbing: `fit`, `headChunk`, `chunks`, `perLeaf` -/
 
-theorem real_default : (default : ℝ) = 0 := rfl
 
 theorem getD_smul (a : ℝ) (x : V) (i : Nat) : (x.map fun v => a * v).getD i 0 = a * x.getD i 0 := by
   simp only [List.getD_eq_getElem?_getD, List.getElem?_map]
@@ -31,7 +29,6 @@ theorem takeD_smul (a : ℝ) : ∀ (n : Nat) (x : V),
 
 theorem fit_smul (n : Nat) : Hom (fit n) := fun a x => takeD_smul a n x
 
-private theorem fit_length (n : Nat) (x : V) : (fit n x).length = n := List.takeD_length _ _ _
 
 theorem headChunk_smul (n : Nat) : Hom (headChunk n) := fun a x => by
   unfold headChunk
@@ -290,6 +287,10 @@ theorem leafDen_smul (E : Env) (u : Nat) (c : LeafCls) (p : Params) : Hom (leafD
     split
     · exact perLeaf_smul _ (fun li lo => toepLeaf_smul _ _ li lo) _ _ a xi
     · exact E.hom u a xi
+  case dense =>
+    split
+    · exact denseLeaf_hom p a xi
+    · exact E.hom u a xi
   all_goals exact E.hom u a xi
 
 theorem leafDenT_smul (E : Env) (u : Nat) (c : LeafCls) (p : Params) : Hom (leafDenT E u c p) := fun a y => by
@@ -321,30 +322,20 @@ theorem leafDenT_smul (E : Env) (u : Nat) (c : LeafCls) (p : Params) : Hom (leaf
     split
     · exact perLeaf_smul _ (fun li lo => toepLeaf_smul _ _ li lo) _ _ a yi
     · exact E.homT u a yi
+  case dense =>
+    split
+    · exact denseLeafT_hom p a yi
+    · exact E.homT u a yi
   all_goals exact E.homT u a yi
 
 /-- the leaf kernels commute with multiplication by a scalar, for every input list -/
 theorem leafHom (E : Env) : LeafHom E :=
   ⟨fun u c p a x => leafDen_smul E u c p a x, fun u c p a y => leafDenT_smul E u c p a y⟩
 
-/-! ### the leaf part of the length law -/
-
-private theorem leafDen_length (E : Env) (u : Nat) (c : LeafCls) (p : Params) (x : V) :
-    (leafDen E u c p x).length = (if squareLeaf c then p.inS else p.outS).size := by
-  unfold leafDen
-  exact fit_length _ _
-
-private theorem leafDenT_length (E : Env) (u : Nat) (c : LeafCls) (p : Params) (y : V) :
-    (leafDenT E u c p y).length = p.inS.size := by
-  unfold leafDenT
-  exact fit_length _ _
+/- (the leaf part of the length law, `leafDen_length` / `leafDenT_length`, is in FuraxProofs/Sem/ListSemBasic.lean) -/
 
 end ListSem
 end Furax
 
 open Furax Furax.ListSem in
 #print axioms leafHom
-open Furax Furax.ListSem in
-#print axioms leafDen_length
-open Furax Furax.ListSem in
-#print axioms leafDenT_length
